@@ -63,6 +63,7 @@ DataMsgs(cls, c, k) ==
     [] cls = "error" -> <<[c |-> c, m |-> "ERR", k |-> 0, gen |-> FALSE]>>
     [] cls = "garbage" -> <<[c |-> c, m |-> "OTHER", k |-> 0, gen |-> FALSE]>>
     [] cls = "hsr" -> <<[c |-> c, m |-> "HSR", k |-> 0, gen |-> FALSE]>>
+    [] cls = "noise" -> <<[c |-> c, m |-> "NOISE", k |-> 0, gen |-> FALSE]>>          \* V3: bytes without a start marker (line noise): the receiver waits on
     [] cls \in {"valid+unsolicited", "dup"} -> <<[c |-> c, m |-> DataKind, k |-> k, gen |-> TRUE], [c |-> c, m |-> DataKind, k |-> k, gen |-> TRUE]>>
     [] OTHER -> <<>>
 
@@ -160,8 +161,8 @@ ConnOK ==
 ConnFail(kind) ==
   /\ pc = "Connecting"
   /\ UNCHANGED <<pver, cexp, calls, nconn>>
-  /\ Finish(<<[e |-> IF kind = "refuse" THEN "connrefuse" ELSE "connhang"]>>, op,
-            IF kind = "refuse" THEN "proto" ELSE "timeout", 0, p, creds)
+  /\ \E out \in (IF kind = "refuse" THEN {"proto", "timeout"} ELSE {"timeout"}) :      \* the OS reports a failed connect as some OSError - among them ETIMEDOUT, which the code reports as a timeout like its own connect timer
+       Finish(<<[e |-> IF kind = "refuse" THEN "connrefuse" ELSE "connhang"]>>, op, out, 0, p, creds)
 
 (* ---------------- network / clock ---------------- *)
 Quiet == UNCHANGED <<creds, pver, cexp, pc, op, use, left, calls, nconn, dkey, nkeys>>
@@ -192,7 +193,10 @@ Deliver(i) ==
          live == HasProto /\ x.c = p.c /\ ~p.dead
          pre == <<[e |-> "deliver", c |-> x.c, m |-> x.m, k |-> x.k, gen |-> x.gen, live |-> live, i |-> i]>>
          pp == IF live THEN [p EXCEPT !.q = Append(p.q, x)] ELSE p IN
-     IF live /\ pc = "ReadWait" THEN WakeRead(pre, pp, RemoveAt(fly, i))
+     IF x.m = "NOISE" THEN      \* nothing is queued, nobody is woken: the bytes are skipped when the next start marker arrives (V3Stream!Extract)
+          /\ fly' = RemoveAt(fly, i) /\ p' = p /\ evs' = pre
+          /\ UNCHANGED <<creds, pc, op, use, left, dkey, nkeys>>
+     ELSE IF live /\ pc = "ReadWait" THEN WakeRead(pre, pp, RemoveAt(fly, i))
      ELSE IF live /\ pc = "AuthWait" THEN WakeAuth(pre, pp, RemoveAt(fly, i))
      ELSE /\ fly' = RemoveAt(fly, i) /\ p' = pp /\ evs' = pre
           /\ UNCHANGED <<creds, pc, op, use, left, dkey, nkeys>>
